@@ -1,11 +1,11 @@
 SPECIFICATION Spec
 CONSTANTS
-  NPK = 3
-  EXTRA = 0
   Sizes = {188, 189, 192}
   Kinds = {"seek", "bufio", "plain"}
+  NPKS = {0, 1, 2, 3}
+  EXTRAS = {0, 1, 100}
+  AUTOS = {TRUE}
   Short = TRUE
-  Auto = TRUE
   Dev = {}
 INVARIANTS SameAsFull EndsInBoundedCalls EOFAbsorbing
 CHECK_DEADLOCK FALSE
